@@ -90,8 +90,8 @@ theorem flush_rel (hE : MetaBlindEnv env) {x y : Shared D L} (h : MetaEq x y) :
 theorem tail_rel (hE : MetaBlindEnv env) {a b : Shared D L} (h : MetaEq a b) (st : St) :
     ORel ERel (tail env a st) (tail env b st) := by
   have hl : ORel MetaEq
-      (if (st == .entering && a.last == .absorb) = true then Shared.tryAutoCommit env a else .ok a)
-      (if (st == .entering && b.last == .absorb) = true then Shared.tryAutoCommit env b else .ok b) := by
+      (if ((st == .entering || st == .enteringSyllable) && a.last == .absorb) = true then Shared.tryAutoCommit env a else .ok a)
+      (if ((st == .entering || st == .enteringSyllable) && b.last == .absorb) = true then Shared.tryAutoCommit env b else .ok b) := by
     rw [h.last_eq]
     exact orel_ite (fun _ => tryAutoCommit_rel env h) (fun _ => h)
   unfold tail
@@ -125,7 +125,7 @@ theorem leaveIfEmpty_rel {e₁ e₂ : Editor D L} (h : EdMetaEq e₁ e₂) :
 
 /-- the part of `Editor::select` after `Selecting::select` -/
 def afterSelect (p : Shared D L × St) : Outcome (Editor D L × Bool) :=
-  match (if p.2 == .entering && p.1.last == .absorb then Shared.tryAutoCommit env p.1 else .ok p.1) with
+  match (if (p.2 == .entering || p.2 == .enteringSyllable) && p.1.last == .absorb then Shared.tryAutoCommit env p.1 else .ok p.1) with
   | .ok sh => .ok ({ shared := sh, state := p.2 }, sh.last != .bell)
   | .panic q => .panic q
   | .outOfFuel => .outOfFuel
@@ -137,8 +137,8 @@ theorem afterSelect_rel {p q : Shared D L × St} (h : PRel p q) : ORel ERel (aft
   dsimp only at hm hs
   subst hs
   have hl : ORel MetaEq
-      (if (st == .entering && a.last == .absorb) = true then Shared.tryAutoCommit env a else .ok a)
-      (if (st == .entering && b.last == .absorb) = true then Shared.tryAutoCommit env b else .ok b) := by
+      (if ((st == .entering || st == .enteringSyllable) && a.last == .absorb) = true then Shared.tryAutoCommit env a else .ok a)
+      (if ((st == .entering || st == .enteringSyllable) && b.last == .absorb) = true then Shared.tryAutoCommit env b else .ok b) := by
     rw [hm.last_eq]
     exact orel_ite (fun _ => tryAutoCommit_rel env hm) (fun _ => hm)
   unfold afterSelect
